@@ -18,6 +18,8 @@ import (
 	"encoding/json"
 	"errors"
 	"fmt"
+	"sort"
+	"strconv"
 	"strings"
 	"testing"
 
@@ -34,6 +36,10 @@ type c02SeqCase struct {
 	Cap      int64  `json:"capacity"`
 	Requests bool   `json:"requests_sizer"` // every request counts 1 whatever its size
 	Ops      []int  `json:"ops"`            // 0..3 offer(size) | 4 read | 5 done(oldest) | 6 done(newest)
+	// StartIndex (persistent queue): the queue starts on a storage whose read and write index both equal this value - the
+	// state of a queue that has already accepted and finished that many requests in earlier incarnations (a non-initial
+	// start state: behaviour must not depend on how far the indices have advanced)
+	StartIndex uint64 `json:"start_index,omitempty"`
 }
 
 func (c c02SeqCase) String() string {
@@ -49,6 +55,9 @@ func (c c02SeqCase) String() string {
 		default:
 			s = append(s, "done(newest)")
 		}
+	}
+	if c.StartIndex > 0 {
+		return fmt.Sprintf("%s cap=%d requests-sizer=%v start-index=%d [%s]", c.Kind, c.Cap, c.Requests, c.StartIndex, strings.Join(s, " "))
 	}
 	return fmt.Sprintf("%s cap=%d requests-sizer=%v [%s]", c.Kind, c.Cap, c.Requests, strings.Join(s, " "))
 }
@@ -88,7 +97,12 @@ func c02SeqRun(c c02SeqCase) (sig, what string, applicable bool) {
 			}
 			rq = newMemoryQueue[c02Req](set)
 		}
-		host := c02Host{ext: map[component.ID]component.Component{component.MustNewID("st"): &c02Ext{cl: &c02Store{m: map[string][]byte{}}}}}
+		stored := map[string][]byte{}
+		if c.StartIndex > 0 {
+			stored[readIndexKey] = itemIndexToBytes(c.StartIndex)
+			stored[writeIndexKey] = itemIndexToBytes(c.StartIndex)
+		}
+		host := c02Host{ext: map[component.ID]component.Component{component.MustNewID("st"): &c02Ext{cl: &c02Store{m: stored}}}}
 		if err := rq.Start(bg, host); err != nil {
 			panic(err)
 		}
@@ -300,6 +314,58 @@ func TestVerifSeq(t *testing.T) {
 				rec(nil)
 			}
 		}
+	}
+	// non-initial start states of the persistent queue: the indices have advanced to just below a value at which some
+	// rendering of the index (any base 11..36, decimal widths, binary widths) coincides with one of the queue's own
+	// bookkeeping keys or changes its width; every operation sequence up to depth `idxdepth` from there
+	starts := map[uint64]bool{8: true, 98: true, 998: true, 254: true, 65534: true, 4294967294: true}
+	for _, key := range []string{readIndexKey, writeIndexKey, currentlyDispatchedItemsKey, queueSizeKey} {
+		for base := 11; base <= 36; base++ {
+			if v, err := strconv.ParseUint(key, base, 64); err == nil && v > 1 {
+				starts[v-1] = true
+				starts[v-2] = true
+			}
+		}
+	}
+	var startList []uint64
+	for v := range starts {
+		startList = append(startList, v)
+	}
+	sort.Slice(startList, func(i, j int) bool { return startList[i] < startList[j] })
+	ctx.R.Extra["start_indices"] = len(startList)
+	idxDepth := ctx.Param("idxdepth", 4)
+	for _, st := range startList {
+		n++
+		if !ctx.Mine(n) {
+			continue
+		}
+		var rec func(ops []int)
+		rec = func(ops []int) {
+			if len(ops) > 0 {
+				c := c02SeqCase{Kind: "pq", Cap: 3, Requests: true, Ops: append([]int(nil), ops...), StartIndex: st}
+				sig, what, applicable := c02SeqRun(c)
+				if !applicable {
+					return
+				}
+				ctx.R.Evals++
+				ctx.R.Trans++
+				ctx.Nontrivial(vr.Hash("start", st, fmt.Sprint(ops)))
+				if sig != "" {
+					ctx.Violate(sig+":pq", what, c)
+					ctx.Outcome(sig)
+					return
+				}
+				ctx.R.Traces++
+				ctx.Outcome("ok:pq:advanced-indices")
+			}
+			if len(ops) == idxDepth {
+				return
+			}
+			for _, op := range []int{1, 4, 5} { // offer(1), read, done(oldest)
+				rec(append(ops, op))
+			}
+		}
+		rec(nil)
 	}
 	ctx.R.States = ctx.R.Evals
 }
